@@ -1,0 +1,11 @@
+//go:build verif
+
+package server
+
+import "github.com/go-chi/chi/v5"
+
+// VerifRoutes exposes the router for route discovery (only compiled with the "verif" build tag).
+func (s *server) VerifRoutes() chi.Routes {
+	r, _ := s.handler.(chi.Routes)
+	return r
+}
